@@ -54,6 +54,13 @@ impl TypeChecker {
         match &pattern.node {
             Pattern::Wildcard => {}
             Pattern::Binding(name) => {
+                // The arm's scope is fresh, so a local hit means this pattern already binds the name (`Pair(a, a)`).
+                if self.symbols.lookup_local(name).is_some() {
+                    self.errors.push(crate::frontend::diagnostics::CompileError::type_error(
+                        format!("Name '{}' is bound more than once in the same pattern", name),
+                        pattern.span,
+                    ));
+                }
                 self.symbols.define(Symbol {
                     name: name.clone(),
                     kind: SymbolKind::Variable(VariableInfo {
